@@ -59,6 +59,7 @@ type Scenario struct {
 	wire.Script
 	Run    *RunParams     `json:"run"`
 	Mix    []*RunParams   `json:"mix"`
+	Before []*RunParams   `json:"before"` // history: requests served earlier by the same process (not part of the trace)
 	Engine *EngineScript  `json:"engine"`
 	Extra  map[string]any `json:"extra"`
 }
@@ -312,9 +313,18 @@ func runWire(t *testing.T, s *Scenario) (evs []wire.Event) {
 		} else {
 			ret = append(ret, "hops", []hopOut{}, "src", "", "sport", 0, "dst", "", "dport", 0)
 		}
-		w.Stop()
+		// the caller's context ends after the call has returned (what net/http does with a request context): nothing of the
+		// finished run may react to that any more (use of a closed handle, a goroutine started by the run)
+		cancel()
+		// goroutines of the repository that are still alive when the call has returned and everything has settled (Stop below
+		// would abort them: count first), and those that do not even end then
 		synctest.Wait()
 		g, sample := repoGoroutines()
+		w.Stop()
+		synctest.Wait()
+		if g2, s2 := repoGoroutines(); g2 > g {
+			g, sample = g2, s2
+		}
 		opened, once, bad := w.HandleSummary()
 		ret = append(ret, "goroutines", g, "gsample", sample, "opened", opened, "closed_once", once, "bad_handles", bad, "accepts", w.Accepts, "flood_delivered", w.FloodDelivered)
 		w.LogEvent("Return", ret...)
